@@ -291,12 +291,13 @@ func despillReturns(fn *ssa.Function) {
 				continue
 			}
 			var val ssa.Value
+			var spill *ssa.Store
 			for _, in := range b.Instrs {
 				if in == ssa.Instruction(ld) {
 					break
 				}
 				if st, ok := in.(*ssa.Store); ok && st.Addr == ssa.Value(al) {
-					val = st.Val
+					val, spill = st.Val, st
 				}
 			}
 			if val == nil {
@@ -304,7 +305,15 @@ func despillReturns(fn *ssa.Function) {
 			}
 			ret.Results[i] = val
 			if refs := val.Referrers(); refs != nil {
-				*refs = append(*refs, ret)
+				// the return takes the spill store's place among the value's uses ("the error is only returned"
+				// must read the same with and without a defer in the function)
+				kept := (*refs)[:0]
+				for _, r := range *refs {
+					if r != ssa.Instruction(spill) {
+						kept = append(kept, r)
+					}
+				}
+				*refs = append(kept, ret)
 			}
 			if refs := ld.Referrers(); refs != nil {
 				kept := (*refs)[:0]
